@@ -2,6 +2,7 @@
 import re
 
 ID = "C11"
+EXTRA_PROPS = ["PrinterFnsTables", "CursorFnsTables"]   # LinePrinter reset / print_char_raw branches / tab rule as TRANSLATED from src/util.rs = the model (Props/PrinterFnsTables.lean)
 N_QUICK, N_THOROUGH = 2500, 120000
 STRICT_MODEL = True
 PARALLEL = 4
